@@ -8,7 +8,8 @@ package main
 // iterator — and then `shots-1` more times each, free-running. The rows the targets saw in a round must be, as a
 // multiset, {k mod L | k < inst*shots}: consecutive rows, each handed out once per lap, over ALL instances.
 //
-//	mode=par  the instances are released by a spin barrier (as simultaneous as 16 cores allow)
+//	mode=par  the instances meet at a spin barrier placed in the ammo's VariableStorage (`Shoot` reads the source variables
+//	          right before the first preprocessor runs): the last one to arrive releases all
 //	mode=ctl  controlled schedule: the harness takes the iterator's own sync.Mutex (found by reflection: field `mx`
 //	          of type sync.Mutex of the object behind the preprocessor's `iterator`), lets every instance queue up
 //	          in its first Lock() for more than the mutex's starvation threshold (1 ms), releases and immediately
@@ -20,13 +21,14 @@ package main
 //	          When the mutex cannot be found (field renamed, other lock type) the round falls back to mode=par.
 //
 // Observation: `ok n=<rounds> distinct=<m1>/<m2>/…` — the distinct sorted row multisets seen over the rounds (one
-// for a correct iterator, whatever the schedule).
+// for a correct iterator, whatever the schedule). A case stops early after 10 s (the rounds done so far count).
 
 import (
 	"context"
 	"fmt"
 	"net/http/httptest"
 	"reflect"
+	"runtime"
 	"sort"
 	"strconv"
 	"strings"
@@ -41,6 +43,26 @@ import (
 	"github.com/yandex/pandora/core/config"
 	"go.uber.org/zap"
 )
+
+// barrierVS is a SourceStorage whose first `n` calls meet at a spin barrier: the last one to arrive releases all. A
+// short bare spin keeps the early ones on their CPUs, after that they yield (a bare spin starves the others when the
+// machine is oversubscribed).
+type barrierVS struct {
+	inner   httpscenario.SourceStorage
+	n       int32
+	arrived atomic.Int32
+}
+
+func (b *barrierVS) Variables() map[string]any {
+	if b.arrived.Add(1) <= b.n {
+		for i := 0; b.arrived.Load() < b.n; i++ {
+			if i > 3000 {
+				runtime.Gosched()
+			}
+		}
+	}
+	return b.inner.Variables()
+}
 
 // iterMutex finds the sync.Mutex guarding the NextIterator shared by the steps of a scenario ammo.
 func iterMutex(a *httpscenario.Scenario) (mx *sync.Mutex) {
@@ -163,7 +185,11 @@ func runFirst(kv map[string]string) (obs string) {
 	var order []string
 	panicked := ""
 	var pmu sync.Mutex
+	began := time.Now()
 	for j := 0; j < rounds; j++ {
+		if j > 0 && time.Since(began) > 10*time.Second {
+			break // time budget (loaded machine, race detector): the rounds done so far are the observation
+		}
 		a := byName["s"+strconv.Itoa(j)]
 		if a == nil {
 			return "err=noscenario"
@@ -178,10 +204,13 @@ func runFirst(kv map[string]string) (obs string) {
 		if ctl {
 			mx = iterMutex(a) // nil (-> spin barrier) when the iterator has no sync.Mutex field any more
 		}
-		var start atomic.Bool
 		var ready, wg sync.WaitGroup
 		if mx != nil {
 			mx.Lock()
+		} else {
+			// the barrier sits in the ammo's public VariableStorage: `Shoot` asks it for the source variables right
+			// before it runs the first step's preprocessor
+			a.VariableStorage = &barrierVS{inner: a.VariableStorage, n: int32(nInst)}
 		}
 		for i := 0; i < nInst; i++ {
 			wg.Add(1)
@@ -196,19 +225,13 @@ func runFirst(kv map[string]string) (obs string) {
 					}
 				}()
 				ready.Done()
-				if mx == nil {
-					for !start.Load() {
-					}
-				}
 				for k := 0; k < shots; k++ {
 					guns[i].Shoot(a)
 				}
 			}(i)
 		}
 		ready.Wait()
-		if mx == nil {
-			start.Store(true)
-		} else {
+		if mx != nil {
 			// every instance queues up in its first Lock()
 			deadline := time.Now().Add(time.Second)
 			for int(mutexState(mx)>>3) < nInst && time.Now().Before(deadline) {
